@@ -86,10 +86,40 @@ def dur_table(case):
     return lst(rows)
 
 
+def parse_rejects(fn):
+    """the one decision of dig's signature parser that a CORE history can meet
+    (everything else the core generator produces parses): a grouped result whose
+    dig.As list names an interface twice is rejected (D20).  The same rule is a
+    clause of Parse.new_result_optgroup, tied to the code by the grammar stream;
+    here it only decides that the operation is the model's `OBad`."""
+    def walk(rs):
+        for r in rs:
+            if r["k"] == "obj":
+                if walk(r["fields"]):
+                    return True
+            elif r["k"] == "group" and len(set(r.get("as") or [])) != len(r.get("as") or []):
+                return True
+        return False
+    return walk(fn.get("results") or [])
+
+
+def is_bad(o, fns):
+    if o["op"] == "bad":
+        return True
+    return o["op"] == "provide" and parse_rejects(fns[o["fn"]])
+
+
+def bad_flags(case):
+    fns = {f["id"]: f for f in case["fns"]}
+    return [is_bad(o, fns) for o in case["ops"]]
+
+
 def op(o, fns):
     k = o["op"]
     if k == "scope":
         return f"OScope {o['parent']}"
+    if k == "provide" and parse_rejects(fns[o["fn"]]):
+        return f"OBad BadProvide {o['scope']} {o['fn']}"
     if k == "bad":
         kind = {"provide": "BadProvide", "decorate": "BadDecorate", "invoke": "BadInvoke"}[o["kind"]]
         return f"OBad {kind} {o['scope']} 0"
@@ -194,7 +224,8 @@ def case_term(case, trace):
     fns = {f["id"]: f for f in case["fns"]}
     cfg = case["config"]
     ops = [op(o, fns) for o in case["ops"]]
-    impl = [oobs(t, case["ops"][i]["op"] == "bad") for i, t in enumerate(trace["ops"])]
+    bad = bad_flags(case)
+    impl = [oobs(t, bad[i]) for i, t in enumerate(trace["ops"])]
     return (f"(mkCase (mkConfig {boolc(cfg.get('defer'))} {boolc(cfg.get('recover'))} {boolc(cfg.get('dry'))})\n"
             f"   {beh_table(case)}\n   {dur_table(case)}\n"
             f"   {lst(ops)}\n   {lst(impl)})")
